@@ -386,9 +386,18 @@ package composite
 //@ props C10
 //@ sweep
 
+// Rendering is a function of the XR, the template and the existing resource: the templates handed
+// to the composer never share a patch list with the revision's patch sets (or, through them,
+// with each other) - an append into such a shared list would rewrite another template's patches.
 //@ func composite.ComposedTemplates
 //@ props C10
 //@ sweep
+//@ loop range cts
+//@   invariant [C10:templates-built-so-far-own-their-patch-lists] forall j :: 0 <= j && j < done ==> callerfresh(ct[j].Patches)
+//@ loop range r.Patches
+//@   invariant [C10:patch-list-under-construction-is-this-calls-own] callerfresh(po)
+//@   invariant [C10:templates-built-so-far-still-own-their-patch-lists] forall j :: 0 <= j && j < i ==> callerfresh(ct[j].Patches)
+//@ ensures [C10:no-template-shares-its-patch-list-with-a-patch-set] err == nil ==> forall j :: 0 <= j && j < len(result) ==> callerfresh(result[j].Patches)
 
 //@ func composite.RenderFromJSON
 //@ props C10
